@@ -114,6 +114,62 @@ def example_pair(rnd, out, N):
             out["problems"].append(("returned-pair-unusable", inp, specrun.exc_info(exc)))
 
 
+# ------------------------------------------------------------------ U-seq: classes with several rules of different constructors
+def useq_pair(rnd, out, N, tag):
+    """two random one-letter grammar universes of the same shape (union and product descriptions of the same sequences,
+    aliases that are not declared equivalences), both expanded completely, then both finders"""
+    import useq
+    from comb_spec_searcher.exception import NoMoreClassesToExpandError
+
+    g1, g2 = f"{tag}a", f"{tag}b"
+    plan = useq.rand_plan(rnd)
+    useq.rand_grammar(rnd, g1, plan)
+    r = rnd.random()
+    useq.rand_grammar(rnd, g2, plan if r < 0.4 else (useq.vary(rnd, plan) if r < 0.85 else useq.rand_plan(rnd)))
+    if not (useq.well_formed(g1) and useq.well_formed(g2)):
+        raise RuntimeError("harness: ill-formed U-seq grammar")
+    desc = {"useq": True, "grammar1": {k: v for k, v in useq.GRAMMARS[g1].items()}, "grammar2": {k: v for k, v in useq.GRAMMARS[g2].items()}}
+    # the plain finder documents the assumption "classes that share equivalence labels are in fact equivalent": universes with
+    # a two-way unary rule that is not an equivalence are for the equivalence-path variant only
+    alias = any(isinstance(v, list) and any(op == "=" for op, _ in v) for g in (g1, g2) for v in useq.GRAMMARS[g].values())
+    for F in ((EqPathParallelSpecFinder,) if alias else (ParallelSpecFinder, EqPathParallelSpecFinder)):
+        inp = dict(desc, finder=F.__name__)
+        ss = []
+        for g in (g1, g2):
+            s = CombinatorialSpecificationSearcher(useq.T(g, "R"), useq.pack())
+            specrun.quiet()
+            try:
+                for _ in range(50):
+                    s.do_level()
+            except NoMoreClassesToExpandError:
+                pass
+            ss.append(s)
+        out["pairs"] += 1
+        try:
+            r = F(ss[0], ss[1]).find()
+        except Exception as exc:  # noqa: BLE001
+            specrun.quiet()
+            out["problems"].append(("finder-raises", inp, specrun.exc_info(exc)))
+            continue
+        specrun.quiet()
+        if r is None:
+            continue
+        out["found"] += 1
+        a, b = r
+        try:
+            for which, sp, g in (("first", a, g1), ("second", b, g2)):
+                if sp.root != useq.T(g, "R"):
+                    out["problems"].append(("returned-specification-has-another-root", inp, which))
+                if [sp.count_objects_of_size(n) for n in range(N)] != [useq.counts(g, "R", n) for n in range(N)]:
+                    out["problems"].append(("returned-specification-miscounts", inp, which))
+            if not Isomorphism.check(a, b):
+                from props import c12
+
+                out["isolines"].append((f"{c12.skeleton(a)} {c12.skeleton(b)}", inp))
+        except Exception as exc:  # noqa: BLE001
+            out["problems"].append(("returned-pair-unusable", inp, specrun.exc_info(exc)))
+
+
 def worker(args):
     import signal
 
@@ -127,6 +183,9 @@ def worker(args):
         for _ in range(count):
             if rnd.random() < 0.5:
                 example_pair(rnd, out, N)
+                continue
+            if rnd.random() < 0.4:
+                useq_pair(rnd, out, N, f"g{seed}_{out['pairs']}")
                 continue
             alpha = rnd.choice(["ab", "ab", "abc"])
             p1 = upword.rand_patterns(rnd, alpha, 3, 3)
@@ -160,7 +219,7 @@ def worker(args):
                 if rnd.random() < 0.6:
                     p2 = list(p1)
             rich = rnd.choice([None, None, "two", "two", "rot", "factory", "mixed", "mixed", "ne", "ne"])
-            for F in (ParallelSpecFinder, EqPathParallelSpecFinder):
+            for F in ((EqPathParallelSpecFinder,) if rich == "ne" else (ParallelSpecFinder, EqPathParallelSpecFinder)):
                 inp = {"patterns1": p1, "patterns2": p2, "alphabet": alpha, "inferral": inferral, "symmetry": symmetry, "finder": F.__name__,
                        "prefix1": pre1, "prefix2": pre2, "rich": rich}
                 s1 = searcher(p1, alpha, inferral, symmetry, pre1, rich)
@@ -268,6 +327,8 @@ def replay(case):
     if "patterns1" not in inp:
         return None
     specrun.quiet()
+    if inp.get("useq"):
+        return "re-run the check with the recorded seed (the grammars are printed in the input)"
     if inp.get("example_universe"):
         from example import AvoidingWithPrefix
 
